@@ -149,6 +149,16 @@ func c02RoundTrip(c *mon.Ctx, mkDiff func() jd.Diff, panel []string, renderOpts 
 			}
 		}
 	}
+	// the same text without its final line break (a shell's $(...) strips it) must read the same
+	if c.Index%3 == 0 && strings.HasSuffix(t, "\n") {
+		d3, err3 := jd.ReadDiffString(strings.TrimSuffix(t, "\n"))
+		c.Feature("read_without_final_newline")
+		if err3 != nil || hunksEqual(Hunks(d2), Hunks(d3)) != "" {
+			extra["reread_without_final_newline"] = ref.HunksString(Hunks(d3))
+			c.Violation("the diff text without its final newline reads differently", extra)
+			return false
+		}
+	}
 	t2 := d2.Render(renderOpts...)
 	if t2 != t {
 		extra["rerendered"] = t2
@@ -213,8 +223,10 @@ var allShapes, reducedShapes = func() ([]shape, []shape) {
 				if pk != "root" && pk != "key" {
 					continue
 				}
-				all = append(all, shape{pathKind: pk, nAdd: 1, merge: true}, shape{pathKind: pk, nAdd: 1, merge: true, voidAdd: true})
-				red = append(red, shape{pathKind: pk, nAdd: 1, merge: true}, shape{pathKind: pk, nAdd: 1, merge: true, voidAdd: true})
+				all = append(all, shape{pathKind: pk, nAdd: 1, merge: true}, shape{pathKind: pk, nAdd: 1, merge: true, voidAdd: true},
+					shape{pathKind: pk, nRemove: 1, nAdd: 1, merge: true}, shape{pathKind: pk, nRemove: 1, merge: true})
+				red = append(red, shape{pathKind: pk, nAdd: 1, merge: true}, shape{pathKind: pk, nAdd: 1, merge: true, voidAdd: true},
+					shape{pathKind: pk, nRemove: 1, nAdd: 1, merge: true})
 				continue
 			}
 			for nr := 0; nr <= 3; nr++ {
@@ -373,7 +385,7 @@ func init() {
 		Rule: "two sources: (1) every diff a.Diff(b) of the C01 workloads (9 option sets, hostile string payloads) rendered, re-read, re-rendered, compared field by field, colour-stripped, and applied to a so that the re-read diff gives b; " +
 			"(2) hunk sequences constructed from the public DiffElement fields: all well-formed single shapes (path kind x before/after context x 0..3 removes x 0..3 adds x merge/void), all pairs of them, and triples over a reduced shape set (thorough), with plain and hostile payloads; " +
 			"each compared for text identity, hunk identity and identical effect on an 18-document panel; the reader's (state, header) transitions are recorded through hook VerifReadTrace; non-trivial = >=2 hunks or context or multi-value or merge metadata; distinct = distinct (shapes, payload seed) or (a, b, options)",
-		Floors: map[string]int{"sequence_len_2": 20000, "merge_metadata_line": 800, "void_addition": 500, "context_lines": 5000, "multi_value": 5000,
+		Floors: map[string]int{"sequence_len_2": 20000, "merge_metadata_line": 800, "void_addition": 200, "context_lines": 5000, "multi_value": 5000,
 			"effect_applies": 5000, "#reader_transitions_observed": 25, "colour_codes_present": 10000, "from_diff_multi_hunk": 5000, "reread_patch_gives_b": 20000, "very_long_line_diffs": 50},
 		Assumptions: []string{
 			"a strict hunk after a merge hunk is not representable (metadata lines are additive and inherited) and is excluded, as the property itself does",
